@@ -1,4 +1,4 @@
-"""C15 - clipping relation computed correctly; recomputation triggers; (stale after structural edits: F-C15-1)."""
+"""C15 - clipping relation computed correctly and recomputed by the setters and by structural edits."""
 from __future__ import annotations
 
 import itertools
@@ -331,20 +331,9 @@ def check_draw(ck, psd, inp):
     return obs
 
 
-core.KNOWN_CLASSIFIERS["F-C15-1"] = lambda fl: (
-    fl["kind"] == "clip-relation-wrong" and bool(fl.get("since_recompute")) and fl.get("unchanged_since_last_recompute") is True
-)
-
-
-def _w_c15_1():
-    f = number([("L", 0, 0), ("L", 1, 0)])
-    psd = build_records(f)
-    before = observed_fields(psd)
-    psd[1].move_down()
-    return (not same_fields(observed_fields(psd), expected_fields(psd))) and same_fields(observed_fields(psd), before)
-
-
-core.KNOWN_WITNESS["F-C15-1"] = _w_c15_1
+# F-C15-1 (structural edits left the stored fields stale) was repaired by /repo commit edc9f34: no classifier; its
+# witness is the first case of the trace stream
+F_C15_1_WITNESS = ([("L", 0, 0), ("L", 1, 0)], [(2, 0, 0)])
 
 
 # ------------------------------------------------------------------ generators
@@ -456,7 +445,7 @@ def run():
                "modes; one group at every position among <= 3 siblings x every flag assignment x every child list of <= 2 x divider-block "
                "variants; random forests to depth 8; documents built through the public API (PSDImage.new, Group.new, PixelLayer.frompil, "
                "append, setters) with the real compositor spied for its draw order; random operation sequences over "
-               "{clipping_layer setter, compatibility_mode setter, move_down} observing the stored fields after every step; "
+               "{clipping_layer setter, compatibility_mode setter, move_down} checking the stored fields against the definition after every step; "
                "non-trivial = distinct forest with at least one clipping layer")
     if ck.coq_build(["theories/Tree/Corr.v", "theories/Properties/C15.v"]):
         ck.collect_theorems("C15.v")
@@ -505,12 +494,14 @@ def run():
             ck.nontriv(("api", lit_forest(f), m))
     # ---- operation sequences (records route): fields after every step, staleness included
     nstale = 0
-    src = [number(r) for r in itertools.islice(gen_nested(ck), 0, None, 7)]
+    first_ops = list(F_C15_1_WITNESS[1])
+    src = [number(F_C15_1_WITNESS[0])] + [number(r) for r in itertools.islice(gen_nested(ck), 0, None, 7)]
     src += [number(r) for r in itertools.islice(gen_flat(ck), 5, None, 11)]
     for f in src:
         if not f:
             continue
-        ops = gen_ops(ck, f)
+        ops = gen_ops(ck, f) if first_ops is None else first_ops
+        first_ops = None
         try:
             psd = build_records(f)
             out = ser_state(psd) + [-9]
@@ -526,17 +517,11 @@ def run():
                         repr(e), "operation succeeds")
                 out = None
                 break
-            if op[0] == 2:
-                if op[1] + 1 < len(psd._layers):
-                    since.append(list(op))
-            else:
-                since, prev = [], None
+            # since edc9f34 a structural edit recomputes like the setters: the definition must hold after every step
             inp = {"route": "records", "forest": jforest(f), "mode": 0, "ops": [list(o) for o in ops[:k + 1]]}
-            okr = check_relation(ck, psd, inp, since, prev)
-            if not since:
-                prev = observed_fields(psd)
-            elif not okr:
+            if not check_relation(ck, psd, inp, [list(op)] if op[0] == 2 else [], prev) and op[0] == 2:
                 nstale += 1
+            prev = observed_fields(psd)
             ck.count("op:%s" % ["set-clip", "set-mode", "move-down"][op[0]])
         if out is not None:
             trace_cases.append(((f, ops), out))
@@ -552,8 +537,8 @@ def run():
     ck.assumptions += [
         "a layer is abstracted to (identity, clipping flag, blend_mode == PASS_THROUGH); pixels, masks, visibility, the viewport test and "
         "the skipping of adjustment layers in Compositor.apply are not modelled (draw-order cases use visible in-viewport pixel layers)",
-        "arbitrary edit histories (append/remove/insert/move_to_group...) belong to C09's model; here: the two recomputing setters and "
-        "move_down at the top level",
+        "arbitrary edit histories (append/remove/insert/move_to_group...) belong to C09's model; here: the two setters and "
+        "move_down at the top level, all of which recompute (structural edits since /repo edc9f34)",
         "changing a blend mode to/from PASS_THROUGH in SAI/CSP mode does not recompute either (not among the changes the property lists)",
     ]
     return ck.finish()
